@@ -249,6 +249,18 @@ def edits(root, sm):
                             d.text = "1"
                             e.append(d)
                     add("R8:default-keys-collide-after-normalisation", depth, f)
+
+                    def f(root, at=at):
+                        e = at(root)
+                        for c in list(e):
+                            e.remove(c)
+                        e.attrib.pop("datatype", None)
+                        e.attrib.pop("required", None)
+                        for k in ("KCollide", "kcollide"):
+                            d = mk("default", key=k)
+                            d.text = "1"
+                            e.append(d)
+                    add("R8:default-keys-collide-after-normalisation-variant-first", depth, f)
             # R9 malformed attributes
             if name not in ("*", "+"):
                 def f(root, at=at):
@@ -440,11 +452,17 @@ def decorate(rng, root):
                 el.append(d)
 
 
+_SHARED = {}
+
+
 def load(xml):
     """-> 'ok' | 'schema-error' | ('other', exception type name)"""
     ZConfig = loadcheck.zc()
     try:
-        ZConfig.loadSchemaFile(io.StringIO(xml))
+        if "loader" not in _SHARED:
+            import ZConfig.loader
+            _SHARED["loader"] = ZConfig.loader.SchemaLoader()
+        _SHARED["loader"].loadFile(io.StringIO(xml))
         return "ok"
     except ZConfig.SchemaError:
         return "schema-error"
